@@ -342,6 +342,11 @@ func dropCheck(p *load.Program, fn *ssa.Function, opts dropOpts) (bad []dropFind
 						return
 					}
 					r := last.(*ssa.Return)
+					// the error fills every slot of a per-input error slice that is returned (for i := range errs
+					// { errs[i] = err }): the zero-iteration path only exists when there are no inputs to answer
+					if fillsReturnedSlice(e, r, s) {
+						return
+					}
 					if fnErrIdx < 0 {
 						dropped = p.Pos(r.Pos()) + " (function has no error result and the error was not handed on)"
 						return
@@ -448,4 +453,50 @@ func acceptDiscard(p *load.Program, fn *ssa.Function, ci ssa.CallInstruction) (b
 		return true, "diagnostic output"
 	}
 	return false, "no accepted idiom"
+}
+
+// fillsReturnedSlice: e is stored into an element of a slice that this return hands back, inside a loop bounded by
+// that slice's length, and the path passed that loop's header.
+func fillsReturnedSlice(e ssa.Value, r *ssa.Return, s *ssax.PathState) bool {
+	if e.Referrers() == nil {
+		return false
+	}
+	for _, ref := range *e.Referrers() {
+		st, ok := ref.(*ssa.Store)
+		if !ok || st.Val != e {
+			continue
+		}
+		ia, ok := st.Addr.(*ssa.IndexAddr)
+		if !ok {
+			continue
+		}
+		returned := false
+		for _, rv := range r.Results {
+			if rv == ia.X {
+				returned = true
+			}
+		}
+		if !returned {
+			continue
+		}
+		// the loop bound: len(slice) evaluated in a block on this path
+		if ia.X.Referrers() == nil {
+			continue
+		}
+		for _, lr := range *ia.X.Referrers() {
+			cl, ok := lr.(*ssa.Call)
+			if !ok {
+				continue
+			}
+			if b, ok := cl.Call.Value.(*ssa.Builtin); !ok || b.Name() != "len" {
+				continue
+			}
+			for _, pb := range s.Blocks {
+				if pb == cl.Block() {
+					return true
+				}
+			}
+		}
+	}
+	return false
 }
